@@ -128,6 +128,7 @@ var checks = map[string]struct {
 	"C01": {drivers.PrepareC01, "model_checking"},
 	"C02": {drivers.PrepareC02, "model_checking"},
 	"C03": {drivers.PrepareC03, "model_checking"},
+	"C04": {drivers.PrepareC04, "model_checking"},
 	"C05": {drivers.PrepareC05, "model_checking"},
 	"C06": {drivers.PrepareC06, "model_checking"},
 	"C07": {drivers.PrepareC07, "model_checking"},
